@@ -10,12 +10,14 @@ PID = "C03"
 LEVEL = "proof"
 GRAD_T = Tup(GrammarT, List(Tup(Nat, List(RealW))), Tup(Bool, Nat), List(QQ), List(Tup(Nat, List(Tup(QQ, QQ)))))
 CF = CheckFn("grad-real", "Model.Dual", "grad_check_real", GRAD_T)
-CHECKFNS = [CF]
+CF_ALIAS = CheckFn("leaf-alias", "Model.LeafAlias", "alias_check", Tup(List(Nat), List(Nat)))
+CHECKFNS = [CF, CF_ALIAS]
 ASSUMPTIONS = [
     "the derivative of the sum-product of a recursive FGG (a power series in the weights with non-negative coefficients, finite at the given point) is the limit of the derivatives of its Kleene iterates = the epsilon part of the least fixed point over the dual numbers (termwise differentiation inside the domain of convergence; real analysis, not formalised); for non-recursive FGGs nothing is assumed: the sum-product is a polynomial and the dual-number value is its formal derivative (proved)",
     "recursive grammars: the epsilon part is judged against a certified enclosure computed in exact rational arithmetic at the dual carrier (Kleene from below, a verified m-step pre-fixed point from above, tightened to 2^-27 relative); grammars without a tight certified enclosure (divergent / near-critical) are discarded and counted",
     "Log semiring read through exp: the implementation receives log(w); the observed gradient is compared with w * dZ/dw / Z; cases with log Z = -inf at a start cell are discarded and counted (derivative undefined)",
     "float results are compared inside Coq with rtol 1e-6, atol 1e-9 (iterative methods stop at tol = 1e-10)",
+    "torch accumulates gradients per leaf storage: modelled by leaf_grad / observed_grads (Model/LeafAlias.v); 'same storage' is observed as equality of untyped_storage().data_ptr() of the factors' physical tensors (torch runtime, trusted); factorize_fgg is assumed to preserve the sum-product (its own property) when its result is judged against the unfactorized grammar",
     "autograd's accumulation across components is torch runtime: modelled as reverse accumulation over the SCC DAG (backward_nonrec with J, backward_nonrec_log with J_log) and tied to the dual-number derivative per case (verdict 20, exact rational equality) for all non-recursive cases; proved equal to it for Real (C03_nonrecursive_gradient)",
 ]
 METHODS = ["fixed-point", "newton", "linear"]
@@ -354,6 +356,314 @@ def forced_recursive_spec(rng, kind):
     return dict(nlabels=[2], elabels=elabels, start=0, rules=rules, weights=weights,
                 features=["forced_matrix_recursion" if kind == 0 else "forced_nonlinear_matrix_recursion"], recursive=True)
 
+def asym_matrix(rng, W, n=2):
+    """an n x n table that differs from its transpose (and is not a multiple of the identity)"""
+    while True:
+        m = gen.nested([n, n], lambda: rng.choice(W))
+        if any(m[i][j] != m[j][i] for i in range(n) for j in range(n)): return m
+
+def forced_hi_arity_recursion_spec(rng, kind):
+    """a RECURSIVE component containing a nonterminal with >= 2 external nodes and a Jacobian that is not invariant
+    under reversing / permuting the axes of its blocks (asymmetric matrices h), so that the order in which the
+    backward pass flattens and transposes the blocks of (I - J)^T matters.  X is the start symbol (any cotangent
+    over its cells) or sits under S -> X(a,b) f(a) g(b).  labels: 0 start, then nonterminals, then terminals.
+      0: X(a,b) -> p(a,b) | h(a,c) X(c,b)                  (J = H (x) I; reversed axes: I (x) H)
+      1: X(a,b) -> f(a) g(b) | X(b,c) h(c,a)               (recursion that also swaps the axes)
+      2: X(a,b) -> p(a,b) | X(a,c) X(c,b)                  (non-linear)
+      3: X(a,b) -> h(a,b) Y(b) | f(a) g(b);  Y(a) -> X(a,c) f(c) | g(a)     (blocks of mixed arity 2 x 1, 1 x 2)
+      4: X(a,b,c) -> h(a,b) f(c) | h(a,d) X(d,b,c)         (arity 3)
+      5: X(a,b,c) -> h(a,b) f(c) | h(a,d) X(b,c,d)         (arity 3, recursion rotates the axes)"""
+    W = [Fraction(1, 4), Fraction(1, 2), Fraction(1), Fraction(1), Fraction(2)]
+    rw = lambda shape: gen.nested(shape, lambda: rng.choice(W))
+    NT = lambda ar: dict(term=False, type=[0] * ar)
+    TM = lambda ar: dict(term=True, type=[0] * ar)
+    ar = 3 if kind >= 4 else 2
+    under = kind in (1, 3) and rng.random() < 0.5      # S -> X(a,b) f(a) g(b) on top (kinds with vector factors)
+    els = ([NT(0)] if under else []) + [NT(ar)]
+    X = len(els) - 1
+    rules = []
+    if kind == 0:
+        p, h = X + 1, X + 2; els += [TM(2), TM(2)]
+        rules += [dict(lhs=X, nodes=[0, 0], edges=[(p, [0, 1])], ext=[0, 1]),
+                  dict(lhs=X, nodes=[0, 0, 0], edges=[(h, [0, 2]), (X, [2, 1])], ext=[0, 1])]
+        weights = {p: asym_matrix(rng, W), h: asym_matrix(rng, W[:4])}
+    elif kind == 1:
+        f, g, h = X + 1, X + 2, X + 3; els += [TM(1), TM(1), TM(2)]
+        rules += [dict(lhs=X, nodes=[0, 0], edges=[(f, [0]), (g, [1])], ext=[0, 1]),
+                  dict(lhs=X, nodes=[0, 0, 0], edges=[(X, [1, 2]), (h, [2, 0])], ext=[0, 1])]
+        weights = {f: rw([2]), g: rw([2]), h: asym_matrix(rng, W[:4])}
+    elif kind == 2:
+        p = X + 1; els += [TM(2)]
+        rules += [dict(lhs=X, nodes=[0, 0], edges=[(p, [0, 1])], ext=[0, 1]),
+                  dict(lhs=X, nodes=[0, 0, 0], edges=[(X, [0, 2]), (X, [2, 1])], ext=[0, 1])]
+        weights = {p: asym_matrix(rng, W)}
+    elif kind == 3:
+        Y = X + 1; els += [NT(1)]
+        h, f, g = Y + 1, Y + 2, Y + 3; els += [TM(2), TM(1), TM(1)]
+        rules += [dict(lhs=X, nodes=[0, 0], edges=[(h, [0, 1]), (Y, [1])], ext=[0, 1]),
+                  dict(lhs=X, nodes=[0, 0], edges=[(f, [0]), (g, [1])], ext=[0, 1]),
+                  dict(lhs=Y, nodes=[0, 0], edges=[(X, [0, 1]), (f, [1])], ext=[0]),
+                  dict(lhs=Y, nodes=[0], edges=[(g, [0])], ext=[0])]
+        weights = {h: asym_matrix(rng, W[:4]), f: rw([2]), g: rw([2])}
+    else:
+        h, f = X + 1, X + 2; els += [TM(2), TM(1)]
+        rec = [3, 1, 2] if kind == 4 else [1, 2, 3]
+        rules += [dict(lhs=X, nodes=[0, 0, 0], edges=[(h, [0, 1]), (f, [2])], ext=[0, 1, 2]),
+                  dict(lhs=X, nodes=[0, 0, 0, 0], edges=[(h, [0, 3]), (X, rec)], ext=[0, 1, 2])]
+        weights = {h: asym_matrix(rng, W[:4]), f: rw([2])}
+    if under:
+        f, g = (X + 1, X + 2) if kind == 1 else (X + 3, X + 4)
+        rules.insert(0, dict(lhs=0, nodes=[0, 0], edges=[(X, [0, 1]), (f, [0]), (g, [1])], ext=[]))
+    return dict(nlabels=[2], elabels=els, start=0, rules=rules, weights=weights,
+                features=["forced_hi_arity_recursion", "forced_hi_arity_recursion_kind%d" % kind] + (["forced_nonlinear_hi_arity"] if kind == 2 else []),
+                recursive=True)
+
+# ----------------------------------------------------------------------------
+# stream "paths": grammars with several DISTINCT factors that have EQUAL weight tables, obtained through every
+# constructor / loader / copy path of the library; gradients are read per factor from the objects that path returned
+
+PATHS = ["json", "copy", "from_hrg", "factorize", "lists", "json_copy", "shared_by_caller", "copy_factorize", "conjoin"]
+PATH_STEPS = {"json": ["json"], "copy": ["copy"], "factorize": ["factorize"], "json_copy": ["json", "copy"],
+              "copy_factorize": ["copy", "copy", "factorize"], "direct": []}
+
+def table_shape(spec, el):
+    return tuple(spec["nlabels"][nl] for nl in spec["elabels"][el]["type"])
+
+def equalize_tables(spec, rng, p=0.8):
+    """terminals whose tables have the same shape receive literally equal tables (copies of one of them); returns (spec, #copies)"""
+    import copy
+    groups = {}
+    for el in sorted(spec["weights"]): groups.setdefault(table_shape(spec, el), []).append(el)
+    s = dict(spec); s["weights"] = dict(spec["weights"]); n = 0
+    for shape, els in sorted(groups.items()):
+        if len(els) < 2: continue
+        src = rng.choice(els)
+        for el in els:
+            if el != src and rng.random() < p:
+                s["weights"][el] = copy.deepcopy(spec["weights"][src]); n += 1
+    if n: s["features"] = sorted(set(spec["features"]) | {"equal_tables"})
+    return s, n
+
+def equal_groups(spec):
+    """groups (>= 2) of distinct factors whose tables are equal (same shape, same numbers)"""
+    groups = {}
+    for el in sorted(spec["weights"]):
+        groups.setdefault((table_shape(spec, el), repr(spec["weights"][el])), []).append(el)
+    return [els for els in groups.values() if len(els) >= 2]
+
+def equal_tables_spec(rng, kind):
+    """forced shapes in which factors with EQUAL tables sit in DIFFERENT positions (so that their true gradients differ):
+      0: S -> a(x) X(x);  X(x) -> t(x,y) X(y) | b(x)          a = b   (recursive, domain of size 1 or 2)
+      1: S -> a(x) t(x,y) b(y) [c(y)]                          a = b = c  (domain of size 1, 2 or 3)
+      2: S -> X c;  X -> X X a | b                             a = b = c  (nullary factors, recursive)
+      3: S -> f(x) t(x,y) u(y,z) g(z)                          t = u [f = g]
+      4: S -> X(x,y) m(x,y);  X(x,y) -> t(x,y) | u(y,x)        t = u = m  (arity-2 nonterminal)"""
+    import copy
+    W = [Fraction(1, 4), Fraction(1, 2), Fraction(1), Fraction(2), Fraction(3)]
+    T = lambda ar: dict(term=True, type=[0] * ar)
+    NTn = lambda ar: dict(term=False, type=[0] * ar)
+    def distinct_vec(d):
+        while True:
+            v = gen.nested([d], lambda: rng.choice(W))
+            if d == 1 or len(set(v)) > 1: return v
+    d = 2
+    if kind == 0:
+        d = rng.choice([1, 2, 2]); a = distinct_vec(d)
+        els = [NTn(0), NTn(1), T(1), T(1), T(2)]
+        rules = [dict(lhs=0, nodes=[0], edges=[(2, [0]), (1, [0])], ext=[]),
+                 dict(lhs=1, nodes=[0, 0], edges=[(4, [0, 1]), (1, [1])], ext=[0]),
+                 dict(lhs=1, nodes=[0], edges=[(3, [0])], ext=[0])]
+        t = asym_matrix(rng, W[:3]) if d == 2 else [[rng.choice(W[:3])]]
+        weights = {2: a, 3: copy.deepcopy(a), 4: t}; rec = True
+    elif kind == 1:
+        d = rng.choice([1, 2, 2, 3]); a = distinct_vec(d); third = d < 3 and rng.random() < 0.5
+        els = [NTn(0), T(1), T(1), T(2)] + ([T(1)] if third else [])
+        rules = [dict(lhs=0, nodes=[0, 0], edges=[(1, [0]), (3, [0, 1]), (2, [1])] + ([(4, [1])] if third else []), ext=[])]
+        t = asym_matrix(rng, W, d) if d >= 2 else [[rng.choice(W)]]
+        weights = {1: a, 2: copy.deepcopy(a), 3: t}
+        if third: weights[4] = copy.deepcopy(a)
+        rec = False
+    elif kind == 2:
+        v = rng.choice([Fraction(1, 4), Fraction(1, 2), Fraction(1)])
+        els = [NTn(0), NTn(0), T(0), T(0), T(0)]
+        rules = [dict(lhs=0, nodes=[], edges=[(1, []), (4, [])], ext=[]),
+                 dict(lhs=1, nodes=[], edges=[(1, []), (1, []), (2, [])], ext=[]),
+                 dict(lhs=1, nodes=[], edges=[(3, [])], ext=[])]
+        weights = {2: v, 3: v, 4: v}; rec = True
+    elif kind == 3:
+        f = distinct_vec(2); g = copy.deepcopy(f) if rng.random() < 0.5 else distinct_vec(2); t = asym_matrix(rng, W)
+        els = [NTn(0), T(1), T(2), T(2), T(1)]
+        rules = [dict(lhs=0, nodes=[0, 0, 0], edges=[(1, [0]), (2, [0, 1]), (3, [1, 2]), (4, [2])], ext=[])]
+        weights = {1: f, 2: t, 3: copy.deepcopy(t), 4: g}; rec = False
+    else:
+        t = asym_matrix(rng, W)
+        els = [NTn(0), NTn(2), T(2), T(2), T(2)]
+        rules = [dict(lhs=0, nodes=[0, 0], edges=[(1, [0, 1]), (4, [0, 1])], ext=[]),
+                 dict(lhs=1, nodes=[0, 0], edges=[(2, [0, 1])], ext=[0, 1]),
+                 dict(lhs=1, nodes=[0, 0], edges=[(3, [1, 0])], ext=[0, 1])]
+        weights = {2: t, 3: copy.deepcopy(t), 4: copy.deepcopy(t)}; rec = False
+    return dict(nlabels=[d], elabels=els, start=0, rules=rules, weights=weights,
+                features=["equal_tables", "forced_equal_tables_kind%d" % kind] + (["size1_domain"] if d == 1 else []), recursive=rec)
+
+def merge_labels(spec, keep, drop):
+    """the grammar in which every edge labelled [drop] is labelled [keep] instead (two factors bound to ONE weight tensor by the
+    caller are one parameter); [drop] stays as a factor that occurs in no rule"""
+    s = dict(spec)
+    s["rules"] = [dict(r, edges=[((keep if el == drop else el), att) for el, att in r["edges"]]) for r in spec["rules"]]
+    return s
+
+def storage_ids(tensors):
+    """small integers naming the physical storage behind each tensor (in the order given); empty tensors get ids of their own"""
+    ids = {}; out = []
+    for k, t in enumerate(tensors):
+        p = t.physical if hasattr(t, "physical") else t
+        key = p.untyped_storage().data_ptr() if p.numel() > 0 else ("empty", k)
+        out.append(ids.setdefault(key, len(ids)))
+    return out
+
+def alias_introduced(pre, post):
+    """pairs of positions that share storage after the path although the caller had given them different storage"""
+    return [(i, j) for i in range(len(post)) for j in range(i + 1, len(post)) if post[i] == post[j] and pre[i] != pre[j]]
+
+def spec_of_fgg(g, spec, names):
+    """read a spec back from an fggs FGG whose terminals are (a subset of) those of [spec] (names: el -> name): for grammars
+    produced by a transformation (conjoin_hrgs).  The weights are those of [spec]; the start symbol is label 0.
+    Returns (spec', {el' of a terminal: el of spec})"""
+    nls = sorted(g.node_labels(), key=lambda l: l.name); nli = {l.name: i for i, l in enumerate(nls)}
+    nts = sorted(g.nonterminals(), key=lambda l: (l != g.start, l.name))
+    byname = {n: el for el, n in names.items()}
+    tms = sorted((l for l in g.terminals() if l.name in byname), key=lambda l: l.name)
+    labels = nts + tms; eli = {l.name: i for i, l in enumerate(labels)}
+    elabels = [dict(term=l.is_terminal, type=[nli[x.name] for x in l.type]) for l in labels]
+    rules = []
+    for r in g.all_rules():
+        nodes = list(r.rhs.nodes()); ni = {n.id: i for i, n in enumerate(nodes)}
+        rules.append(dict(lhs=eli[r.lhs.name], nodes=[nli[n.label.name] for n in nodes],
+                          edges=[(eli[e.label.name], [ni[n.id] for n in e.nodes]) for e in r.rhs.edges()],
+                          ext=[ni[n.id] for n in r.rhs.ext]))
+    back = {eli[l.name]: byname[l.name] for l in tms}
+    weights = {e2: spec["weights"][e1] for e2, e1 in back.items()}
+    sizes = [g.domains[l.name].size() for l in nls]
+    return dict(nlabels=sizes, elabels=elabels, start=0, rules=rules, weights=weights, features=list(spec["features"]),
+                recursive=spec["recursive"]), back
+
+def build_via(spec, sr, path, rng, ids="explicit"):
+    """The FGG of [spec] obtained through [path].  Returns (fgg, {el: FiniteFactor of THAT fgg}, pre, model_spec):
+    pre = storage ids of the weight tensors as the caller supplied them (sorted el order), model_spec = the grammar the
+    gradients are to be judged against (its terminal numbering is the one of the returned factor dict)."""
+    import fggs, torch
+    dtype = sr.torch_dtype()
+    names = {el: gen.el_name(spec, el) for el in spec["weights"]}
+    els = sorted(spec["weights"])
+    old = torch.get_default_dtype(); torch.set_default_dtype(dtype)     # json_to_weights / python lists use the default dtype (as bin/sum_product.py -d)
+    try:
+        if path in ("from_hrg", "lists", "conjoin"):
+            hb = gen.build_hrg(spec, ids=ids, rng=rng)
+            hrg = hb.hrg
+            if path == "conjoin":
+                # conjunction with a grammar of the same skeleton (same node / nonterminal-edge ids, primed nonterminals) that
+                # adds one nullary factor u to every rule; its weight equals a nullary weight of spec if there is one
+                h2 = fggs.HRG(fggs.EdgeLabel(hb.els[spec["start"]].name + "'", hb.els[spec["start"]].type, is_nonterminal=True))
+                prime = {}
+                for i, e in enumerate(spec["elabels"]):
+                    if not e["term"]:
+                        prime[i] = h2.start if i == spec["start"] else fggs.EdgeLabel(hb.els[i].name + "'", hb.els[i].type, is_nonterminal=True)
+                extra = fggs.EdgeLabel("u", [], is_terminal=True)
+                for (rule, nodes, edges), r in zip(hb.rules, spec["rules"]):
+                    gr = fggs.Graph()
+                    for n in nodes: gr.add_node(n)
+                    for e, (el, att) in zip(edges, r["edges"]):
+                        if not spec["elabels"][el]["term"]: gr.add_edge(fggs.Edge(prime[el], e.nodes, id=e.id))
+                    gr.add_edge(fggs.Edge(extra, [], id="u"))
+                    gr.ext = rule.rhs.ext
+                    h2.add_rule(fggs.HRGRule(prime[r["lhs"]], gr))
+                hrg = fggs.conjoin_hrgs(hrg, h2)
+            g = fggs.FGG.from_hrg(hrg)
+            for i, size in enumerate(spec["nlabels"]):
+                g.add_domain(hb.nls[i], fggs.FiniteDomain(["v%d_%d" % (i, k) for k in range(size)]))
+            supplied = []
+            for el in els:
+                if path == "lists":     # nested python lists of floats (FiniteFactor converts them itself)
+                    g.new_finite_factor(names[el], gen.nested_map(spec["weights"][el], sr.wconv))
+                    supplied.append(g.factors[names[el]].weights)
+                else:
+                    t = gen.weight_tensor(spec, el, sr.wconv, dtype)
+                    g.new_finite_factor(names[el], t); supplied.append(t)
+            if path != "conjoin":
+                return g, {el: g.factors[names[el]] for el in els}, storage_ids(supplied), spec
+            scal = [el for el in els if table_shape(spec, el) == ()]
+            uval = spec["weights"][scal[0]] if scal else Fraction(1, 2)
+            g.new_finite_factor("u", torch.tensor(sr.wconv(uval), dtype=dtype))
+            s2 = dict(spec, elabels=list(spec["elabels"]) + [dict(term=True, type=[])], weights=dict(spec["weights"]))
+            u = len(s2["elabels"]) - 1; s2["weights"][u] = uval
+            names2 = dict(names); names2[u] = "u"
+            model_spec, back = spec_of_fgg(g, s2, names2)
+            facs = {e2: g.factors[names2[e1]] for e2, e1 in back.items()}
+            return g, facs, list(range(len(facs))), model_spec
+        b = gen.build_fgg(spec, sr.wconv, ids=ids, rng=rng, dtype=dtype)
+        g = b.fgg
+        if path == "shared_by_caller":
+            # the caller binds two factors with equal tables to ONE tensor: they are one parameter, whose gradient is the
+            # derivative of the grammar in which both edge labels are the same label
+            grp = equal_groups(spec)
+            keep, drop = grp[0][0], grp[0][1]
+            b.factors[drop].weights = b.factors[keep].weights
+            if rng.random() < 0.5: g = fggs.factorize_fgg(g)
+            obs = [el for el in els if el != drop]
+            return g, {el: g.factors[names[el]] for el in obs}, storage_ids([b.factors[el].weights for el in obs]), merge_labels(spec, keep, drop)
+        pre = storage_ids([b.factors[el].weights for el in els])
+        for step in PATH_STEPS[path]:
+            if step == "json": g = fggs.json_to_fgg(json.loads(json.dumps(fggs.fgg_to_json(g))))
+            elif step == "copy": g = g.copy()
+            else: g = fggs.factorize_fgg(g)
+        return g, {el: g.factors[names[el]] for el in els}, pre, spec
+    finally:
+        torch.set_default_dtype(old)
+
+def run_path_case(spec, sr, method, cot, plain, path, ids, seed, inplace):
+    """One history on ONE grammar object obtained through [path]: requires_grad_ on the factors of that object, sum_product,
+    backward, read every factor's gradient; then (inplace) one factor's weights are halved IN PLACE under no_grad, the
+    gradients are cleared and the same object is evaluated again.  Returns (rounds, pre, post): rounds = list of
+    (model spec of that round, status, warned, {el of model spec: grads}, z); pre / post = storage ids before / after the path."""
+    import fggs, torch
+    rng = random.Random(seed)
+    g, facs, pre, cur = build_via(spec, sr, path, rng, ids)
+    post = storage_ids([facs[el].weights for el in sorted(facs)])
+    rounds = []
+    for rnd in range(2 if inplace else 1):
+        for fac in facs.values():
+            fac.weights.requires_grad_(); fac.weights.physical.grad = None
+        with warnings.catch_warnings(record=True) as wl:
+            warnings.simplefilter("always")
+            try:
+                z = fggs.sum_product(g, method=method, semiring=sr.semiring(), tol=1e-10, kmax=400).to_dense()
+            except ValueError as e:
+                if "not linearly recursive" in str(e): rounds.append((cur, "valueerror", False, {}, None)); break
+                raise
+            loss = z.sum() if plain else (z * torch.tensor([float(x) for x in cot], dtype=sr.torch_dtype()).reshape(z.shape)).sum()
+            status = "ok"
+            try: loss.backward()
+            except RuntimeError as e:
+                if "does not require grad" in str(e): status = "nograd"
+                else: raise
+        warned = any("maximum iteration exceeded" in str(w.message) for w in wl)
+        grads = {}
+        for el, fac in facs.items():
+            gr = fac.weights.grad
+            n = numel(table_shape(cur, el))
+            grads[el] = [0.0] * n if gr is None else dense_list(gr)
+            if len(grads[el]) != n: raise AssertionError("gradient of factor %d has %d entries, weights have %d" % (el, len(grads[el]), n))
+        rounds.append((cur, status, warned, grads, dense_list(z)))
+        if rnd == 0 and inplace:
+            el = sorted(facs)[rng.randrange(len(facs))]
+            with torch.no_grad():
+                ph = facs[el].weights.physical
+                if sr.name == "log": ph.add_(math.log(0.5))
+                else: ph.mul_(0.5)
+            cur = dict(cur, weights=dict(cur["weights"]))
+            cur["weights"][el] = gen.nested_map(cur["weights"][el], lambda v: v / 2)
+    return rounds, pre, post
+
 NT0 = dict(term=False, type=[])
 def forced_finding_specs():
     """minimal inputs of the defect classes found by this check and since repaired in /repo (b84d904, 839ae95, e1d8ad4, fc474fc, 124928a); kept in every run as regression cases"""
@@ -435,6 +745,11 @@ def gen_spec(rng, i, recursive):
     if recursive and i % 3 == 2 and (i // 3) % 2 == 0:
         spec = forced_diag_recursion_spec(rng, under_start=(i // 6) % 3 != 0)
         return spec, rng.choice([Fraction(1, 4), Fraction(1, 8)]), False
+    if recursive and i % 3 == 0 and (i // 3) % 2 == 0:
+        kind = (i // 6) % 6
+        spec = forced_hi_arity_recursion_spec(rng, kind)
+        if shared_factor(spec): spec["features"] = sorted(set(spec["features"]) | {"shared_factor"})
+        return spec, (Fraction(1, 8) if kind in (2, 3) else rng.choice([Fraction(1, 4), Fraction(1, 8)])), False
     if recursive and i % 3 == 1:
         kind = (i // 3) % 4
         spec = forced_recursive_spec(rng, kind)
@@ -516,6 +831,8 @@ def run(tier, seed):
             method = METHODS[(i + ci) % 3] if i != -2 else "fixed-point"
             if any(f in spec["features"] for f in ("forced_mutual_recursion", "forced_nonlinear_matrix_recursion", "forced_dead_rule_first", "forced_diagonal_recursion")):
                 method = METHODS[(i // 3 + ci) % 2]      # non-linear recursion: method='linear' would only raise its ValueError
+            if "forced_hi_arity_recursion" in spec["features"]:      # i % 6 == 0 here: rotate over all three methods (two when non-linear)
+                method = METHODS[(i // 6 + i // 36 + ci) % (2 if "forced_nonlinear_hi_arity" in spec["features"] else 3)]
             plain = (i + ci) % 3 == 0
             cot = [Fraction(1)] * n_c if plain else [rng.choice(COT_GRID) for _ in range(n_c)]
             case = dict(spec=gen.spec_jsonable(spec), semiring=sr.name, scale=str(sr.scale), method=method, cotangent=[str(c) for c in cot], plain=plain, via="api")
@@ -569,6 +886,76 @@ def run(tier, seed):
             vals.append(v); meta.append((dict(m["case"], via="api-jpre"), m["call"], m["grads"], None))
             if any(x != 0 for g in m["grads"].values() for x in g): distinct.add(json.dumps(m["case"], sort_keys=True))
         n_j += 1
+    # stream "paths": distinct factors with EQUAL tables through every constructor / loader / copy path, per-factor gradients
+    # read from the objects that path returned, a second evaluation of the same object after an in-place update
+    prng = random.Random(seed * 13 + 5); n_path = 27 if tier == "quick" else 360; k = 0; tries = 0
+    if os.environ.get("VERIF_N"): n_path = int(os.environ["VERIF_N"])
+    alias_vals = []; alias_meta = []
+    path_hist = {}; kinds["path_alias_checked"] = 0; kinds["path_equal_pairs_with_different_gradients"] = 0
+    while k < n_path and tries < 60 * n_path:
+        tries += 1
+        path = PATHS[k % len(PATHS)]
+        if (k + k // len(PATHS)) % 3 == 0:
+            spec = equal_tables_spec(prng, (k // 3) % 5)
+            scale = Fraction(1, 4) if spec["recursive"] else Fraction(1)
+        else:
+            spec, scale, keep_zero = gen_spec(prng, 2 * tries, (k // 2) % 2 == 1)      # even index: no unused factor (F20: lost by the JSON round trip)
+            used = {el for r in spec["rules"] for el, _ in r["edges"]}
+            if keep_zero or len(spec["weights"]) < 2 or not all(el in used for el in spec["weights"]): continue
+            if sum(numel(table_shape(spec, el)) for el in spec["weights"]) > (10 if spec["recursive"] else 16): continue
+            spec, n_eq = equalize_tables(spec, prng)
+            if n_eq == 0: continue
+        if path == "shared_by_caller" and not equal_groups(spec): continue
+        if path == "conjoin" and sum(1 for e in spec["elabels"] if not e["term"]) > 2: continue
+        sr = SR(["real", "log"][k % 2], "float64", scale)
+        nonlin = any(f in spec["features"] for f in ("forced_mutual_recursion", "forced_nonlinear_matrix_recursion", "forced_dead_rule_first",
+                                                     "forced_diagonal_recursion", "forced_nonlinear_hi_arity", "forced_equal_tables_kind2"))
+        method = METHODS[(k + k // len(PATHS)) % (2 if nonlin else 3)]
+        n_c = numel(start_shape(spec)); plain = k % 4 == 3
+        cot = [Fraction(1)] * n_c if plain else [prng.choice([c for c in COT_GRID if c != 0 or n_c > 1]) for _ in range(n_c)]
+        ids = "explicit" if path == "conjoin" else ["explicit", "implicit"][(k // 2) % 2]
+        inplace = (k // 3) % 2 == 0
+        cseed = prng.randrange(10**6)
+        case0 = dict(spec=gen.spec_jsonable(spec), semiring=sr.name, scale=str(sr.scale), method=method, cotangent=[str(c) for c in cot], plain=plain,
+                     via="path-" + path, path=path, ids=ids, case_seed=cseed, inplace=inplace)
+        call = "g = <FGG with equal weight tables via %s>; [f.weights.requires_grad_() for f in g.factors.values()]; sum_product(g, method=%r, semiring=%s).to_dense()%s.backward(); g.factors[..].weights.grad" % (
+            path, method, sr.name, ".sum()" if plain else " * c).sum(")
+        k += 1
+        try:
+            rounds, pre, post = run_path_case(spec, sr, method, cot, plain, path, ids, cseed, inplace)
+        except Exception as e:
+            violations.append(Violation("gradient computation on a grammar obtained via %s raised %r" % (path, e), case=case0, call=call, corr="corr:backward(paths)",
+                                        oracle="no exception expected"))
+            continue
+        path_hist[path] = path_hist.get(path, 0) + 1
+        for f in spec["features"]: feats[f] = feats.get(f, 0) + 1
+        kinds["path_alias_checked"] += 1
+        alias_vals.append((list(pre), list(post))); alias_meta.append((case0, call, path))
+        for rnd, (cur, status, warned, grads, z) in enumerate(rounds):
+            if status == "valueerror": kinds["valueerror"] += 1; continue
+            if status == "nograd": kinds["nograd"] += 1
+            if warned: kinds["warned"] += 1; continue
+            case = dict(case0, round=rnd, model_spec=gen.spec_jsonable(cur), status=status)
+            kinds["path"] = kinds.get("path", 0) + 1
+            hist["semiring"][sr.name] = hist["semiring"].get(sr.name, 0) + 1
+            hist["method"][method] = hist["method"].get(method, 0) + 1
+            vals.append(wire_case(cur, sr, cot, grads)); meta.append((case, call + (" [second evaluation of the same object after halving one factor in place]" if rnd else ""), grads, None))
+            if any(x != 0 for g_ in grads.values() for x in g_): distinct.add(json.dumps(case, sort_keys=True))
+            if rnd == 0 and path != "conjoin":
+                kinds["path_equal_pairs_with_different_gradients"] += sum(1 for grp in equal_groups(cur) for a in grp for b_ in grp
+                                                                          if a < b_ and a in grads and b_ in grads and grads[a] != grads[b_])
+    hist["path"] = path_hist
+    # the storage partitions before / after each path, judged by alias_check (extracted code; all of them again in the kernel)
+    acodes = run_ocaml(CF_ALIAS, alias_vals)
+    if alias_vals:
+        cc = run_coq(CF_ALIAS, alias_vals, tag="c03alias", timeout=600)
+        if list(cc) != list(acodes): raise BuildError("extracted code and vm_compute disagree on leaf-alias: %r vs %r" % (acodes, cc))
+    for (pre, post), (case0, call, path), c in zip(alias_vals, alias_meta, acodes):
+        if c == 0: continue
+        violations.append(Violation("distinct factors share ONE weight storage after %s although the caller supplied separate tensors (each one's .grad then holds the SUM of both derivatives: C03_shared_storage_sum; an in-place update of one changes the other)" % path,
+                                    case=dict(case0, storage_before=pre, storage_after=post, aliased_positions=alias_introduced(pre, post)), observed=post, expected=pre, call=call,
+                                    oracle="alias_check (C03_alias_check_exact, C03_alias_check_preserves_separate_storage, C03_separate_storage_own_gradient)",
+                                    corr="C03 / corr:weight storage partition", failing_input_found=c == 1))
     t_impl = time.time()
     codes, nk = run_model_parallel(vals, seed, coq_sample=3 if tier == "quick" else 12)
     # the command-line runs were working in the background all along; judge their outputs now
@@ -605,7 +992,7 @@ def run(tier, seed):
                                     corr="C03 / corr:backward", failing_input_found=c in (1, 4), call=call))
     s0 = meta[0] if meta else None
     cov = dict(evaluations=len(vals), distinct_nontrivial=len(distinct),
-               rule="random FGG specs (<= 3 nonterminals, domains <= 2; non-recursive, and linearly / non-linearly recursive damped by 1/4 or 1/8; most nonterminals given a base rule) with strictly positive dyadic weights (every 5th spec keeps zero weights, Real only), every 4th with a factor used in no rule; x {Real, Log} x method rotating over fixed-point/newton/linear (tol 1e-10, kmax 400) x cotangent (plain sum | random signed dyadic tensor); every entry of every factor's weights.grad (absent = 0) judged in Coq against the dual-number derivative; a few Real cases additionally through bin/sum_product.py (-G, -w/-g/-e, -o); distinct_nontrivial = distinct (spec, semiring, method, cotangent, route) with some non-zero gradient entry",
+               rule="random FGG specs (<= 3 nonterminals, domains <= 2; non-recursive, and linearly / non-linearly recursive damped by 1/4 or 1/8; most nonterminals given a base rule) with strictly positive dyadic weights (every 5th spec keeps zero weights, Real only), every 4th with a factor used in no rule; x {Real, Log} x method rotating over fixed-point/newton/linear (tol 1e-10, kmax 400) x cotangent (plain sum | random signed dyadic tensor); every entry of every factor's weights.grad (absent = 0) judged in Coq against the dual-number derivative; a few Real cases additionally through bin/sum_product.py (-G, -w/-g/-e, -o); every 6th recursive spec a forced RECURSIVE component with a nonterminal of arity 2 or 3 and asymmetric Jacobian blocks (six shapes: left / axis-swapping / non-linear matrix recursion, mixed arity 2 x 1, arity 3 plain and axis-rotating; all three methods, Real and Log); stream 'paths' (27 quick / 360 thorough histories): grammars in which DISTINCT factors have EQUAL weight tables (five forced shapes incl. size-1 domains, nullary factors and an arity-2 nonterminal; random specs with tables copied between same-shape factors) obtained through json_to_fgg(fgg_to_json), FGG.copy (once, twice), FGG.from_hrg + new_finite_factor (tensors | nested python lists), factorize_fgg, conjoin_hrgs with a primed skeleton grammar + from_hrg (judged against the grammar read back from the result), and two factors bound to ONE tensor by the caller (judged against the grammar with the two labels merged); requires_grad_ on the factors of the RETURNED object, per-factor weights.grad judged by the same oracle; every other history evaluates the same object a second time after halving one factor in place under no_grad; the partition of the factors by physical storage before / after the path is judged by alias_check (Coq); distinct_nontrivial = distinct (spec, semiring, method, cotangent, route) with some non-zero gradient entry",
                case_kinds=kinds, histogram=hist, feature_histogram=feats, gradient_entries_checked=entries,
                conclusive=conclusive, conclusive_by_kind=conclusive_by, inconclusive_discarded=inconclusive, log_minus_inf_discarded=logzero, kernel_reevaluated=nk,
                samples=[dict(case=s0[0], observed=s0[2])] if s0 else [],
@@ -613,7 +1000,7 @@ def run(tier, seed):
     return cov, violations
 
 OPEN_ITEMS = [
-    "proved (Props/C03.v, 38 closed theorems; generic in the semiring, instances for [0, inf] with the laws discharged by Proofs/SemiringLaws.v): dual numbers are a commutative / ordered / star semiring; Leibniz rule; C03_dual_is_derivative; C03_J_is_formal_derivative (+ partial environments, Jx / J_inputs); C03_scc_vjp_onestep; C03_nonrecursive_gradient (+ _ereal); C03_tree_derivative (+ _ereal), C03_expected_count_numerator; C03_encl2_sound; C03_check_oracle_sound, C03_entry_interval_sound (+ _ereal, no premises), C03_start_bounds_sound; C03_log (J_log as it is now = diag(1/F) J diag(x), only guard: finite values), C03_log_ereal, C03_log_partial, C03_log_dead_rule_now; about the code before b84d904: C03_log_old_guarded, C03_log_old_dead_rule_refuted; C03_zero_weight_derivative_witness",
+    "proved (Props/C03.v, 43 closed theorems; generic in the semiring, instances for [0, inf] with the laws discharged by Proofs/SemiringLaws.v): dual numbers are a commutative / ordered / star semiring; Leibniz rule; C03_dual_is_derivative; C03_J_is_formal_derivative (+ partial environments, Jx / J_inputs); C03_scc_vjp_onestep; C03_nonrecursive_gradient (+ _ereal); C03_tree_derivative (+ _ereal), C03_expected_count_numerator; C03_encl2_sound; C03_check_oracle_sound, C03_entry_interval_sound (+ _ereal, no premises), C03_start_bounds_sound; C03_log (J_log as it is now = diag(1/F) J diag(x), only guard: finite values), C03_log_ereal, C03_log_partial, C03_log_dead_rule_now; about the code before b84d904: C03_log_old_guarded, C03_log_old_dead_rule_refuted; C03_zero_weight_derivative_witness; leaf aliasing: C03_alias_check_exact, C03_alias_check_preserves_separate_storage, C03_separate_storage_own_gradient, C03_shared_storage_sum, C03_shared_storage_witness",
     "open (analysis, not formalised): derivative of the limit = limit of the derivatives of the Kleene iterates for recursive grammars (termwise differentiation of a power series with non-negative coefficients inside its domain of convergence); proved up to: the epsilon part of every sufficiently late dual Kleene iterate lies in the certified interval",
     "open (tier B): the Log analogue of C03_nonrecursive_gradient (reverse accumulation with J_log = d log Z / d log w) is checked per case (verdict 20: backward_nonrec_log vs the dual-number oracle, exact rational equality) but not proved; log_softmax's inf branch is not modelled (finite values)",
     "open (tier B): linearly recursive grammars -- derivative of the rational least solution equals the implicit-function result of backward; the backward pass of iteratively solved components (multi_solve on the transposed system) is not modelled, it is judged by the enclosure oracle",
@@ -625,6 +1012,19 @@ def replay(path):
     spec = gen.spec_from_json(c["spec"])
     sr = SR(c["semiring"], "float64", Fraction(c["scale"]))
     cot = [Fraction(x) for x in c["cotangent"]]
+    if c.get("via", "api").startswith("path-"):
+        rounds, pre, post = run_path_case(spec, sr, c["method"], cot, c["plain"], c["path"], c["ids"], c["case_seed"], c["inplace"])
+        bad = alias_introduced(pre, post)
+        acode = run_ocaml(CF_ALIAS, [(list(pre), list(post))])[0]
+        print("storage ids before", pre, "after", post, "aliasing introduced at positions", bad, "alias_check verdict", acode)
+        rc = 1 if acode != 0 else 0
+        for rnd, (cur, status, warned, grads, z) in enumerate(rounds):
+            print("round", rnd, "status", status, "warned", warned, "z", z)
+            if status == "valueerror" or warned: continue
+            code = run_ocaml(CF, [wire_case(cur, sr, cot, grads)])[0]
+            print("gradients", grads, "verdict code", code)
+            if code not in (0, 30, 31): rc = 1
+        return rc
     if c.get("via", "api").startswith("bin"):
         status, grads, gexp, err = run_bin(spec, c["method"], None if c["plain"] else cot, "ge" if c["via"] in ("bin-ge", "bin-e") else "G", scale=sr.scale, factor=c.get("factor"))
         print("status", status, err[-300:])
@@ -639,7 +1039,7 @@ def replay(path):
 
 MANIFEST = dict(
     level="proof",
-    text="Coq: the dual numbers over a commutative (ordered) semiring are a commutative (ordered) semiring; running the sum-product definitions over them yields the ordinary value in the first component and the formal derivative in the epsilon component (Leibniz rule for rule values, recurrence eps Z_{k+1} = J(Z_k) eps Z_k + dF/dw, sum over derivation trees and over the occurrences of the weight entry); the code's J (leave one edge out) is that Jacobian, the one-step backward pass is its vector-Jacobian product and reverse accumulation over a non-recursive grammar's components equals the dual-number derivative; J_log (nan_to_num per contribution) = diag(1/F) J diag(x) on finite values; instances for [0, inf] with the semiring laws proved. Correspondence: every entry of every factor's weights.grad after sum_product(...).backward() (Real and Log, three methods, random cotangents, also via bin/sum_product.py and with j_precompute=True) is judged inside Coq against the dual-number derivative (exact for non-recursive grammars, certified enclosure for recursive ones).",
+    text="Coq: the dual numbers over a commutative (ordered) semiring are a commutative (ordered) semiring; running the sum-product definitions over them yields the ordinary value in the first component and the formal derivative in the epsilon component (Leibniz rule for rule values, recurrence eps Z_{k+1} = J(Z_k) eps Z_k + dF/dw, sum over derivation trees and over the occurrences of the weight entry); the code's J (leave one edge out) is that Jacobian, the one-step backward pass is its vector-Jacobian product and reverse accumulation over a non-recursive grammar's components equals the dual-number derivative; J_log (nan_to_num per contribution) = diag(1/F) J diag(x) on finite values; instances for [0, inf] with the semiring laws proved. Per-leaf accumulation (two factors in one storage both read the sum of their derivatives; separate storages: each its own) and the exactness of the storage-partition check. Correspondence: every entry of every factor's weights.grad after sum_product(...).backward() (Real and Log, three methods, random cotangents, also via bin/sum_product.py, with j_precompute=True, on recursive components of arity 2 / 3, and on grammars with equal weight tables obtained through every constructor / loader / copy path incl. a second evaluation after an in-place update) is judged inside Coq against the dual-number derivative (exact for non-recursive grammars, certified enclosure for recursive ones).",
     note="Trusted: Coq kernel, extraction cross-checked by vm_compute, harness; for recursive grammars the interchange of limit and derivative (analysis) is assumed; grammars without a tight certified enclosure are discarded (counted).",
     technique="Coq proof (dual numbers / Leibniz / reverse = forward accumulation) + certified-enclosure oracle on implementation gradients",
     design_ref="DESIGN.md section 6, C03")
